@@ -2,7 +2,7 @@ SPECIFICATION Spec
 CONSTANTS
   Dev = "none"
   Periods = {2}
-  Mult2s = {2, 3}
+  Mult2s = {3}
   Lookbacks = {0, 2}
   Tables <- TablesQuick
   Aligns = {0, 3}
